@@ -148,3 +148,12 @@ def the_parsed_security_control_field_stands_for_the_received_octet(octet):
     except ValueError:
         return
     assert scf.to_knx() == bytes([octet])
+
+
+# ... and the parsed transport control stands for the received octet (C03, every octet and destination kind):
+# the receiver authenticates tpci.to_knx() of what TPCI.resolve returned
+
+from contracts import c03_tpci as _c03  # noqa: E402
+from pyvc.api import rely_on  # noqa: E402
+
+rely_on("C16", _c03.decode_then_encode)
